@@ -250,6 +250,9 @@ class Ctx:
                 self.parts.get("suppressed_duplicate_violations", 0) + 1
             return "dup"
         self._sigs_seen.add(key)
+        if len(self.violations) >= 40:
+            self.violations.append((sig, self.violations[-1][1]))
+            return "violation"
         os.makedirs(os.path.join(VERIF, "replays"), exist_ok=True)
         h = hashlib.sha1(json.dumps([sig, replay], sort_keys=True, default=str).encode()).hexdigest()[:12]
         path = os.path.join(VERIF, "replays", "%s-%s.json" % (self.prop, h))
@@ -326,3 +329,60 @@ def git_head(path):
         return subprocess.check_output(["git", "-C", path, "rev-parse", "--short", "HEAD"], text=True).strip()
     except Exception:
         return "?"
+
+
+# --------------------------------------------------------------------------- TLA+ literals
+def tla_str(s):
+    out = ['"']
+    for c in s:
+        if c == '"':
+            out.append('\\"')
+        elif c == "\\":
+            out.append("\\\\")
+        elif c == "\n":
+            out.append("\\n")
+        elif c == "\t":
+            out.append("\\t")
+        elif c == "\r":
+            out.append("\\r")
+        elif c == "\f":
+            out.append("\\f")
+        elif 32 <= ord(c) < 127:
+            out.append(c)
+        else:
+            raise MachineryError("character %r cannot be written as a TLA+ string literal" % c)
+    out.append('"')
+    return "".join(out)
+
+
+def tla_val(v):
+    if isinstance(v, bool):
+        return "TRUE" if v else "FALSE"
+    if isinstance(v, int):
+        return str(v)
+    if isinstance(v, str):
+        return tla_str(v)
+    if isinstance(v, (list, tuple)):
+        return "<<" + ", ".join(tla_val(x) for x in v) + ">>"
+    if isinstance(v, (set, frozenset)):
+        return "{" + ", ".join(tla_val(x) for x in sorted(v, key=repr)) + "}"
+    if isinstance(v, dict):
+        return "[" + ", ".join("%s |-> %s" % (k, tla_val(x)) for k, x in v.items()) + "]"
+    raise MachineryError("no TLA+ literal for %r" % (v,))
+
+
+def mc_module(wd, base, defs, name=None):
+    """Write MC_<base>.tla into wd: EXTENDS base plus `defs` (name -> python value or raw TLA+
+    text when given as ("raw", text)).  Returns (path, cfg lines 'Const <- MCname')."""
+    name = name or ("MC_" + base)
+    lines = ["---- MODULE %s ----" % name, "EXTENDS " + base]
+    subst = []
+    for k, v in defs.items():
+        body = v[1] if isinstance(v, tuple) and v and v[0] == "raw" else tla_val(v)
+        lines.append("MC_%s == %s" % (k, body))
+        subst.append("%s <- MC_%s" % (k, k))
+    lines.append("====")
+    path = os.path.join(wd, name + ".tla")
+    with open(path, "w") as f:
+        f.write("\n".join(lines) + "\n")
+    return path, "CONSTANTS\n" + "\n".join(subst) + "\n"
